@@ -39,6 +39,7 @@ type c20Async struct {
 }
 
 func c20ExecAsync(sc c20Async) string {
+	tCtx := time.Now() // the deadline counts from here
 	ctx, cancel := context.WithTimeout(context.Background(), time.Duration(sc.DeadlineUs)*time.Microsecond)
 	defer cancel()
 	opm := couchbase.NewAsyncOp(ctx)
@@ -90,9 +91,10 @@ func c20ExecAsync(sc c20Async) string {
 		if n := op.cancels.Load(); n != 1 {
 			return fmt.Sprintf("pending operation cancelled %d times after the deadline, want exactly once", n)
 		}
-		if el < time.Duration(sc.DeadlineUs)*time.Microsecond-time.Millisecond {
-			return fmt.Sprintf("Wait returned after %v, before its deadline of %d us", el, sc.DeadlineUs)
+		if since := time.Since(tCtx); since < time.Duration(sc.DeadlineUs)*time.Microsecond-time.Millisecond {
+			return fmt.Sprintf("Wait returned an expiry %v after the context was created, before its deadline of %d us", since, sc.DeadlineUs)
 		}
+		_ = el
 	}
 	if sc.ResolveUs >= 0 {
 		// a late completion neither blocks nor panics
